@@ -32,6 +32,8 @@ type effectsInfo struct {
 
 // valueRoot is addrRoot, additionally looking through Phi (first edge with a
 // non-local root wins), Extract and MakeInterface.
+var rootDepth int
+
 func valueRoot(v ssa.Value) (ssa.Value, []string) {
 	r, path := addrRoot(v)
 	for i := 0; i < 16; i++ {
@@ -48,6 +50,34 @@ func valueRoot(v ssa.Value) (ssa.Value, []string) {
 			r2, p2 := addrRoot(x.X)
 			r, path = r2, append(p2, path...)
 			continue
+		case *ssa.Alloc:
+			// a by-value parameter spilled to a local: what is reached
+			// through a reference (map, slice, pointer) loaded from the copy
+			// is still the caller's memory
+			crossed := false
+			for _, st := range path {
+				if st == "*" {
+					crossed = true
+				}
+			}
+			if crossed && rootDepth < 6 {
+				for _, ref := range *x.Referrers() {
+					if st, ok := ref.(*ssa.Store); ok && st.Addr == ssa.Value(x) {
+						if prm, ok := st.Val.(*ssa.Parameter); ok {
+							return prm, path
+						}
+						// a copy of a value that lives in someone else's memory
+						rootDepth++
+						rr, _ := valueRoot(st.Val)
+						rootDepth--
+						switch rootKind(rr) {
+						case "param", "global", "freevar":
+							return rr, path
+						}
+					}
+				}
+			}
+			return r, path
 		case *ssa.Phi:
 			// prefer a non-local root
 			var pick ssa.Value
